@@ -87,7 +87,9 @@ pub fn gen_case_sized(t: &mut Tape, n: usize, max_sec: usize, max_hunks: usize, 
             let budget = t.range(2, max_budget);
             let mut first = true;
             while body.len() < budget {
-                let nctx = if first { t.below(3) } else { t.range(1, 3) };
+                // (no unchanged line between two sub-hunks: a removed line directly after an added one, as
+                // combined diffs, other diff tools and hand-made patches have it)
+                let nctx = if first { t.below(3) } else { t.range(0, 3) };
                 first = false;
                 for _ in 0..nctx {
                     body.push((K::Ctx, String::new()));
@@ -328,7 +330,7 @@ impl Prop for C11 {
         6000
     }
     fn rule(&self) -> String {
-        "cases = git diff stream (1-3 file sections, two-way or combined, 1-3 hunks each, runs of removed/added lines of lengths 0,1,N-1..N+2,2N+1,2N+3, 1-8 and occasionally 40-300, `\\ No newline` lines) with a unique sentinel in every hunk line x line-buffer-size N in {0,1,2,3,5,8,32} x tagged option set (unified / side-by-side, line numbers, themes). delta is driven by a reader that hands over one line per request and a recording writer; W(k) = bytes written when line k+1 is requested. Oracle at EVERY prefix k that ends inside a hunk: every hunk line before the currently open run of removed/added lines is visible in W(k); the absent ones number <= N+1; the section's file header is written; W(k) is a prefix of the output for the first k lines alone (one random k per case) and of the whole output. Real binary: the same rule on snapshots taken over pipes when the process is observed blocked in read(0). Non-trivial = some run longer than N+1 and >= 2 hunks; distinct by hash of (input, argv).".to_string()
+        "cases = git diff stream (1-3 file sections, two-way or combined, 1-3 hunks each, runs of removed/added lines of lengths 0,1,N-1..N+2,2N+1,2N+3, 1-8 and occasionally 40-300, `\\ No newline` lines, sub-hunks separated by 0-3 unchanged lines) with a unique sentinel in every hunk line x line-buffer-size N in {0,1,2,3,5,8,32} x tagged option set (unified / side-by-side, line numbers, themes). delta is driven by a reader that hands over one line per request and a recording writer; W(k) = bytes written when line k+1 is requested. Oracle at EVERY prefix k that ends inside a hunk: every hunk line before the currently open run of removed/added lines is visible in W(k); the absent ones number <= N+1; the section's file header is written; W(k) is a prefix of the output for the first k lines alone (one random k per case) and of the whole output. Real binary: the same rule on snapshots taken over pipes when the process is observed blocked in read(0). Non-trivial = some run longer than N+1 and >= 2 hunks; distinct by hash of (input, argv).".to_string()
     }
     fn assumptions(&self) -> Vec<String> {
         vec![
